@@ -495,8 +495,25 @@ func (e *c04env) close() {
 	os.RemoveAll(e.dir)
 }
 
+// c04FormatOnly is set when the harness runs for C10 (VERIF_C04_AS=C10.writers):
+// only the layout oracles (strict decoder after every step, monotone limit,
+// records neither foreign nor vanishing) produce verdicts then.
+var c04FormatOnly = false
+
+func c04Violate(r *verifrt.Result, sig, msg string, replay map[string]any) {
+	if c04FormatOnly && !(strings.HasPrefix(sig, "malformed:") || sig == "limit-decreased" || sig == "foreign-record" || sig == "record-vanished") {
+		r.Hit("not-a-layout-verdict:" + strings.SplitN(sig, ":", 2)[0])
+		return
+	}
+	r.Violate(sig, msg, replay)
+}
+
 func TestVerifC04(t *testing.T) {
-	const check = "C04.sched"
+	check := "C04.sched"
+	if as := os.Getenv("VERIF_C04_AS"); as != "" {
+		check = as
+		c04FormatOnly = true
+	}
 	res := verifrt.NewResult(check)
 	res.Rule = "2-4 emulated processes (independent fd + MAP_SHARED mapping of one counter file each, one virtual thread per process) create and increment same-name, bucket-colliding, page-filling and file-extending counters through the real code under the token-passing scheduler (scheduling point at every atomic operation and fs call), with kills (thread parked for ever) at chosen points; strategies: kill/park at the k-th point for all k, PCT, sticky, random. Oracle after every step: the shared file's bytes, read through the monitor's own mapping, pass the strict independent decoder (aligned in-bounds records below a monotone limit, acyclic chains, bucket = hash, unique names, no overlap, page tail free), values monotone and <= increments begun; at quiescence completed <= value(+pending) <= begun and every survivor finished all its operations. distinct = distinct (program, trace) hashes; non-trivial = trace switches process at least twice or contains a kill"
 	nb := 32
@@ -543,6 +560,19 @@ func TestVerifC04(t *testing.T) {
 						p.KillAt[j] = 1 + rnd.Intn(80)
 					}
 				}
+			}
+			if p.Name == "concurrent-create" && (i/8)%2 == 0 {
+				// the process that creates the file dies at its k-th point (all k:
+				// also between the writes that initialise the file); the others then
+				// open the file it left behind and must be able to count
+				k := 1 + (i/16)%45
+				p.KillAt = make([]int, len(p.Procs))
+				p.KillAt[0] = k
+				st = c03strategy{Kind: "park", Phases: []verifrt.Phase{{Thread: 0, Until: k}}}
+				for o := 1; o < len(p.Procs); o++ {
+					st.Phases = append(st.Phases, verifrt.Phase{Thread: o, Until: -1})
+				}
+				r.Hit("creator-killed-pattern")
 			}
 			if p.Name == "colliding-big" && (i/7)%2 == 1 {
 				// one process links a record beyond everybody's mapping; the
@@ -601,7 +631,7 @@ func TestVerifC04(t *testing.T) {
 								sig = "fault:" + topFrame(t.Stack)
 							}
 						}
-						r.Violate(sig, fmt.Sprintf("process %s panicked (program %s): %v\n%.1500s", t.Name, p.Name, t.Panic, t.Stack), replay)
+						c04Violate(r, sig, fmt.Sprintf("process %s panicked (program %s): %v\n%.1500s", t.Name, p.Name, t.Panic, t.Stack), replay)
 						bad = true
 					}
 				}
@@ -609,7 +639,7 @@ func TestVerifC04(t *testing.T) {
 					break
 				}
 				if s.Overrun {
-					r.Violate("survivor-blocked", fmt.Sprintf("surviving processes did not finish within %d steps (program %s)", s.MaxSteps, p.Name), replay)
+					c04Violate(r, "survivor-blocked", fmt.Sprintf("surviving processes did not finish within %d steps (program %s)", s.MaxSteps, p.Name), replay)
 					break
 				}
 				e.check(true)
@@ -617,7 +647,7 @@ func TestVerifC04(t *testing.T) {
 					if e.violData != nil {
 						replay["input"] = saveInput(r, "C04", e.violData)
 					}
-					r.Violate(e.violSig, e.viol+" (program "+p.Name+")", replay)
+					c04Violate(r, e.violSig, e.viol+" (program "+p.Name+")", replay)
 					break
 				}
 				for pi, pr := range e.procs {
@@ -625,11 +655,11 @@ func TestVerifC04(t *testing.T) {
 						continue
 					}
 					if pr.err != "" {
-						r.Violate("survivor-failed", fmt.Sprintf("surviving process P%d was made to fail: %s (program %s)", pi, pr.err, p.Name), replay)
+						c04Violate(r, "survivor-failed", fmt.Sprintf("surviving process P%d was made to fail: %s (program %s)", pi, pr.err, p.Name), replay)
 					}
 					for ci, c := range pr.ctrs {
 						if x := counterStateBits(c.state.bits.Load()).extra(); x != 0 {
-							r.Violate("survivor-unpersisted", fmt.Sprintf("surviving process P%d could not persist %d of counter %q (program %s)", pi, x, trunc40(p.Names[ci]), p.Name), replay)
+							c04Violate(r, "survivor-unpersisted", fmt.Sprintf("surviving process P%d could not persist %d of counter %q (program %s)", pi, x, trunc40(p.Names[ci]), p.Name), replay)
 						}
 					}
 				}
@@ -641,7 +671,7 @@ func TestVerifC04(t *testing.T) {
 			e.close()
 		}
 	})
-	res.Require("saturating-base-written", "program:saturating", "remap-twice-pattern", "program:colliding-big", "program:same-name", "program:colliding-names", "program:extend-race", "program:page-tail", "program:concurrent-create", "schedule-with-kill", "strategy:pct", "strategy:park")
+	res.Require("creator-killed-pattern", "saturating-base-written", "program:saturating", "remap-twice-pattern", "program:colliding-big", "program:same-name", "program:colliding-names", "program:extend-race", "program:page-tail", "program:concurrent-create", "schedule-with-kill", "strategy:pct", "strategy:park")
 	if err := res.Write(); err != nil {
 		t.Fatal(err)
 	}
